@@ -119,6 +119,45 @@ def scan_states_rule(ctx: Ctx, rule: str) -> None:
                {"keys": keys}, "" if ok2 else "the scan no longer checks the node's own produced state in the shared pool")
 
 
+def pull_guards_rule(ctx: Ctx, rule: str) -> None:
+    """Every non-net object of a setup edge gets every location of that setup exactly once (a location is skipped only if it is
+    already listed; it is appended when others are listed, stored alone otherwise); flat nodes have nothing to pull."""
+    fref = f"{NODE}:TestNode.pull_locations"
+    fn = ctx.repo.func(fref)
+    ctx.touch(fref)
+    body = [s_ for s_ in fn.node.body if not (isinstance(s_, ast.Expr) and isinstance(s_.value, ast.Constant))]
+    first = body[0] if body else None
+    ok_flat = isinstance(first, ast.If) and norm.equivalent(norm.formula(first.test), ("atom", "self.is_flat()")) and len(first.body) == 1 and isinstance(first.body[0], ast.Return) and not first.orelse
+    comp = [l for l in ast.walk(fn.node) if isinstance(l, ast.For) and "cleanup_nodes[self]" in ast.unparse(l.iter)]
+    ok = ok_flat and len(comp) == 1 and isinstance(comp[0].target, ast.Name)
+    why = "the guards of pull_locations changed"
+    if ok:
+        l = comp[0]
+        c = l.target.id
+        ifs = [i for i in l.body if isinstance(i, ast.If)]
+        key = "f'get_location{object_suffix}'"
+        want_net = norm.formula(ast.parse(f"{c}.key == 'nets'", mode="eval").body)
+        want_dup = norm.formula(ast.parse(f"setup_location in self.params.get({key}, '')", mode="eval").body)
+        want_has = norm.formula(ast.parse(f"self.params.get({key})", mode="eval").body)
+        sk = [i for i in ifs if len(i.body) == 1 and isinstance(i.body[0], ast.Continue) and not i.orelse]
+        net_ok = any(norm.equivalent(norm.formula(i.test), want_net) for i in sk)
+        dup_ok = any(norm.equivalent(norm.formula(i.test), want_dup) for i in sk)
+        st = [i for i in ifs if i not in sk]
+        app_ok = False
+        if len(st) == 1:
+            f = norm.formula(st[0].test)
+            a, b = [ast.unparse(x) for x in st[0].body], [ast.unparse(x) for x in st[0].orelse]
+            if norm.equivalent(f, norm.neg(want_has)):
+                a, b, f = b, a, want_has
+            app_ok = norm.equivalent(f, want_has) and a == [f"self.params[{key}] += ' ' + setup_location"] and b == [f"self.params[{key}] = setup_location"]
+        suffix = [ast.unparse(x.value) for x in l.body if isinstance(x, ast.Assign) and ast.unparse(x.targets[0]) == "object_suffix"]
+        ok = net_ok and dup_ok and app_ok and len(sk) == 2 and suffix == [f"'_' + {c}.long_suffix"]
+        if not ok:
+            why = f"a setup location is not handed to exactly the non-net objects of the edge once (nets skipped: {net_ok}, duplicate skipped: {dup_ok}, append/store: {app_ok})"
+    ctx.record(rule, "TABLE", fref, "flat -> nothing; per location and per object of the edge: nets skipped, already listed -> skipped, else appended to (or stored as) get_location_<object>",
+               ok, {}, "" if ok else why)
+
+
 def scan_coverage_rule(ctx: Ctx, rule: str) -> None:
     """Every object whose state the test provides takes part in the state scan (its check_state, location and mode are handed
     to the check), except objects without a set_state and the installation of a permanent object."""
@@ -315,6 +354,7 @@ def run(ctx: Ctx) -> None:
     ctx.call(pass_only_rule, "8")
     ctx.call(pull_locations_rule, "9")
     ctx.call(scan_coverage_rule, "7t")
+    ctx.call(pull_guards_rule, "9g")
     ctx.call(T.t_g5, "10/T.G5")
     from . import graphrules as GR
     from .c08 import session_identity
@@ -329,6 +369,8 @@ def run(ctx: Ctx) -> None:
 
 G = "cartgraph/graph.py"
 MUTANTS = [
+    ("location-only-if-already-listed", NODE, "                    if setup_location in self.params.get(\n                        f\"get_location{object_suffix}\", \"\"\n                    ):\n                        continue", "                    if setup_location not in self.params.get(\n                        f\"get_location{object_suffix}\", \"\"\n                    ):\n                        continue", "9g"),
+    ("location-overwrites-earlier-ones", NODE, "                    if self.params.get(f\"get_location{object_suffix}\"):\n                        self.params[f\"get_location{object_suffix}\"] += (", "                    if not self.params.get(f\"get_location{object_suffix}\"):\n                        self.params[f\"get_location{object_suffix}\"] += (", "9g"),
     ("permanent-shortcut-inverted", NODE, "            if object_state == \"install\" and test_object.is_permanent():\n                should_run = False", "            if not (object_state == \"install\" and test_object.is_permanent()):\n                should_run = False", "7t"),
     ("permanent-shortcut-any-state", NODE, "            if object_state == \"install\" and test_object.is_permanent():\n                should_run = False", "            if test_object.is_permanent():\n                should_run = False", "7t"),
     ("drop-not-in-drop-guard", G, "if not next.should_run(worker):\n                        previous.drop_parent(next, worker)",
